@@ -69,6 +69,9 @@ struct TableSpec {
     /// (`totalsRowShown`, `headerRowDxfId`, `published`, `tableType`, `insertRowShift`, …)
     #[serde(default, skip_serializing_if = "Vec::is_empty")]
     x: Vec<[String; 2]>,
+    /// verbatim `ref` text instead of `r` (garbled / reversed references): no expectation except "no panic"
+    #[serde(default, skip_serializing_if = "Option::is_none")]
+    rr: Option<String>,
     /// the `name` attribute when it differs from `displayName` (the table's name is its `displayName`)
     #[serde(default, skip_serializing_if = "Option::is_none")]
     alt: Option<String>,
@@ -444,7 +447,7 @@ fn build_xlsx(spec: &XlsxSpec) -> BuiltX {
             ("id".into(), (k + 1).to_string()),
             ("name".into(), t.alt.clone().unwrap_or_else(|| t.name.clone())),
             ("displayName".into(), t.name.clone()),
-            ("ref".into(), ref_text(t.r, true, false)),
+            ("ref".into(), t.rr.clone().unwrap_or_else(|| ref_text(t.r, true, false))),
         ];
         if let Some(h) = t.hdr {
             attrs.push(("headerRowCount".into(), h.to_string()));
@@ -825,13 +828,18 @@ fn oracle_xlsx(b: &BuiltX, spec: &XlsxSpec, table_names: &[String]) -> (Option<X
         let h = t.hdr.unwrap_or(1);
         let tot = t.tot.unwrap_or(0);
         let ins = matches!(t.ins.as_deref(), Some("1") | Some("true"));
-        let valid = h <= 1 && tot <= 1 && !ins && t.r[0] <= t.r[2] && t.r[1] <= t.r[3] && t.r[0] + h + tot <= t.r[2];
+        let valid = h <= 1 && tot <= 1 && !ins && t.rr.is_none() && t.r[0] <= t.r[2] && t.r[1] <= t.r[3];
         if !valid {
             per_table.push(None);
             continue;
         }
-        let (sr, er) = (t.r[0] + h, t.r[2] - tot);
         let sh = &spec.sheets[t.sheet];
+        if t.r[0] as u64 + h as u64 + tot as u64 > t.r[2] as u64 {
+            // header and totals rows leave no data row: the table is reported, with an empty data range
+            per_table.push(Some(format!("{},{},{} | S=- E=- ROWS=", hex(t.name.as_bytes()), hex(sh.name.as_bytes()), cols_text(&t.cols))));
+            continue;
+        }
+        let (sr, er) = (t.r[0] + h, t.r[2] - tot);
         let m: BTreeMap<(u32, u32), u32> = sh.cells.iter().map(|c| ((c[0], c[1]), c[2])).collect();
         let rows: Vec<String> = (sr..=er)
             .map(|r| (t.r[1]..=t.r[3]).map(|c| m.get(&(r, c)).copied().unwrap_or(0).to_string()).collect::<Vec<_>>().join(","))
@@ -912,14 +920,14 @@ fn eval_xlsx(spec: &XlsxSpec, drv: &mut Driver, mode: &str) -> Outcome {
         judge(&mut out, "xlsx.worksheet_merge_cells_at", &g(&imp.wmc_at), &g(&model.wmc_at), if regions_expected { Some(&orc.wmc_at[i]) } else { None });
     }
     // tables: the name lists are expected whenever every table declaration parses (always, here)
-    let tables_loadable = spec.tables.iter().all(|t| {
-        let (h, tot) = (t.hdr.unwrap_or(1), t.tot.unwrap_or(0));
-        let ins = t.ins.as_deref().map(|v| v != "0").unwrap_or(false);
-        t.r[2] >= tot + ins as u32 && h <= 1 && tot <= 1
-    });
+    // an unparsable `ref` makes load_tables return Err for the workbook: no expectation then
+    let tables_loadable = spec.tables.iter().all(|t| t.rr.is_none());
     let any_abs = spec.tables.iter().any(|t| t.abs);
     let names_sig = if any_abs { "table.names:abs" } else { "table.names" };
     judge(&mut out, names_sig, &imp.names, &model.names, if tables_loadable { Some(&orc.names) } else { None });
+    if imp.names == "panic" {
+        fail(&mut out, "impl_vs_spec", "table.no_panic", &imp.names, &model.names, "Ok or Err");
+    }
     if imp.names.starts_with("ok") {
         for i in 0..spec.sheets.len() {
             let g = |v: &Vec<String>| v.get(i).cloned().unwrap_or_else(|| "(absent)".into());
@@ -930,6 +938,10 @@ fn eval_xlsx(spec: &XlsxSpec, drv: &mut Driver, mode: &str) -> Outcome {
             let g = |v: &Vec<String>| v.get(k).cloned().unwrap_or_else(|| "(absent)".into());
             let exp = per_table[k].as_deref();
             judge_table(&mut out, t, &g(&imp.tables), &g(&model.tables), exp);
+            // robustness (shared with C06): whatever the declaration, a lookup returns, it never unwinds
+            if g(&imp.tables) == "panic" || g(&imp.tables_ref) == "panic" {
+                fail(&mut out, "impl_vs_spec", "table.no_panic", &g(&imp.tables), &g(&model.tables), "Ok or Err");
+            }
             // the borrowed variant must observe exactly what the owned one does
             if g(&imp.tables_ref) != g(&imp.tables) {
                 fail(&mut out, "impl_vs_spec", "table.by_name_ref_differs", &g(&imp.tables_ref), &g(&model.tables_ref), &g(&imp.tables));
@@ -1265,7 +1277,9 @@ fn gen_xlsx(rng: &mut Rng) -> XlsxSpec {
         let ncols = rng.range(1, 6) as u32;
         let data_rows = if rng.chance(1, 25) { 0 } else { rng.range(1, 5) as u32 };
         let h = hdr.unwrap_or(1) + tot.unwrap_or(0) + data_rows;
-        let h = h.max(1);
+        // a table without a data row: sometimes the reference is even shorter than header + totals
+        let h = if data_rows == 0 && rng.chance(1, 2) { 1 } else { h.max(1) };
+        let degenerate_top = data_rows == 0 && rng.chance(1, 2);
         // anchor: inside / overlapping the used range, or anywhere (mostly outside), or the far corner
         let (ar, ac) = if !sh.cells.is_empty() && rng.chance(3, 5) {
             let c = rng.pick(&sh.cells);
@@ -1277,7 +1291,7 @@ fn gen_xlsx(rng: &mut Rng) -> XlsxSpec {
         } else {
             (pick_row(rng), pick_col(rng))
         };
-        let ar = ar.min(MAX_ROW + 1 - h);
+        let ar = if degenerate_top { 0 } else { ar.min(MAX_ROW + 1 - h) };
         let ac = ac.min(MAX_COL + 1 - ncols);
         let mut cn: Vec<&str> = COLNAMES.to_vec();
         rng.shuffle(&mut cn);
@@ -1293,6 +1307,7 @@ fn gen_xlsx(rng: &mut Rng) -> XlsxSpec {
             cols,
             abs: rng.chance(1, 4),
             x: gen_table_attrs(rng),
+            rr: if rng.chance(1, 40) { Some(rng.pick(&["A", "B2:A1", "C1:A5", "", "A1:B2:C3", "A5:A1", "7", "A1:A"]).to_string()) } else { None },
             alt: if rng.chance(1, 4) { Some(rng.pick(&["Table_legacy", "Other", "t", "Tabelle1"]).to_string()) } else { None },
             ord: if rng.chance(1, 2) { rng.next() | 1 } else { 0 },
             kids: if rng.chance(1, 3) { 0 } else { rng.below(64) as u8 },
@@ -1411,6 +1426,11 @@ fn xlsx_candidates(s: &XlsxSpec) -> Vec<XlsxSpec> {
             v.push(c);
         }
         let t = &s.tables[k];
+        if t.rr.is_some() {
+            let mut c = s.clone();
+            c.tables[k].rr = None;
+            v.push(c);
+        }
         if t.kids != 0 || t.ord != 0 || t.alt.is_some() {
             let mut c = s.clone();
             c.tables[k].kids = 0;
@@ -1523,6 +1543,14 @@ fn corpus() -> Vec<String> {
         r#"xlsx {"layout":0,"sheets":[{"name":"Sheet1","cells":[[1,1,1],[2,1,2],[3,1,3],[4,1,4]],"merges":[]}],"tables":[{"sheet":0,"name":"Table1","r":[1,1,4,1],"hdr":0,"tot":1,"cols":["a"],"abs":false,"x":[["totalsRowShown","0"]]}]}"#.into(),
         // every inert attribute / child at once, shuffled attribute order, name != displayName, wrong mergeCells count
         r#"xlsx {"layout":0,"sheets":[{"name":"Sheet1","cells":[[0,0,1],[1,0,2],[2,1,3],[3,0,4]],"merges":[{"r":[5,5,6,6],"f":20},{"r":[7,7,7,7],"f":16}],"cnt":7}],"tables":[{"sheet":0,"name":"Table1","r":[0,0,3,1],"hdr":1,"tot":1,"cols":["a","name"],"abs":false,"x":[["totalsRowShown","false"],["headerRowDxfId","3"],["insertRowShift","1"],["tableType","worksheet"],["published","1"],["xr3:ref","A1:A2"]],"alt":"Other","ord":12345,"kids":61}]}"#.into(),
+        // no data row (found by C06's fault search / this check): header + totals only; totals row on a
+        // reference ending in row 1; header-only one-row table: reported with an empty data range, no panic
+        r#"xlsx {"layout":0,"sheets":[{"name":"Sheet1","cells":[[0,0,1],[1,0,2]],"merges":[]}],"tables":[{"sheet":0,"name":"Table1","r":[0,0,1,0],"hdr":1,"tot":1,"cols":["a"],"abs":false}]}"#.into(),
+        r#"xlsx {"layout":0,"sheets":[{"name":"Sheet1","cells":[[0,0,1]],"merges":[]}],"tables":[{"sheet":0,"name":"Table1","r":[0,0,0,1],"hdr":0,"tot":1,"cols":["a","b"],"abs":false}]}"#.into(),
+        r#"xlsx {"layout":0,"sheets":[{"name":"Sheet1","cells":[[3,3,1]],"merges":[]}],"tables":[{"sheet":0,"name":"Table1","r":[3,3,3,3],"hdr":null,"tot":null,"cols":["a"],"abs":false},{"sheet":0,"name":"Table2","r":[0,0,0,0],"hdr":1,"tot":1,"ins":"1","cols":["a"],"abs":false}]}"#.into(),
+        // garbled and reversed table references: Err or an empty data range, never a panic
+        r#"xlsx {"layout":0,"sheets":[{"name":"Sheet1","cells":[[0,0,1]],"merges":[]}],"tables":[{"sheet":0,"name":"Table1","r":[0,0,1,0],"hdr":1,"tot":null,"cols":["a"],"abs":false,"rr":"B2:A1"}]}"#.into(),
+        r#"xlsx {"layout":0,"sheets":[{"name":"Sheet1","cells":[[0,0,1]],"merges":[]}],"tables":[{"sheet":0,"name":"Table1","r":[0,0,1,0],"hdr":1,"tot":null,"cols":["a"],"abs":false,"rr":"A"}]}"#.into(),
         // several sheets, regions at the far corner, attribution
         r#"xlsx {"layout":0,"sheets":[{"name":"A","cells":[],"merges":[{"r":[1048575,16383,1048575,16383],"f":0},{"r":[0,0,1048575,16383],"f":0}]},{"name":"B","cells":[[3,3,7]],"merges":[]},{"name":"C","cells":[],"merges":[{"r":[5,26,9,702],"f":3}],"mc_empty":true}],"tables":[]}"#.into(),
         // xls: two records, regions at IV65536
@@ -1560,7 +1588,8 @@ fn main() {
          mergeCells count wrong or missing, extra attributes before/after a mergeCell ref) and xls (1-3 sheets, 0-3 MERGEDCELLS records of 0-1027 regions among the cell records); \
          oracle = the declared regions (count, order, corners, sheet) and for tables name, sheet, columns \
          and the sheet's values over ref minus header/totals rows; no expectation for malformed/reversed \
-         refs, tables without a data row or with insertRow; non-trivial = a well-formed reference / a \
+         refs, and for the geometry of insertRow tables; a table whose header/totals rows leave no \
+         data row is reported with an empty data range; no table lookup may panic; non-trivial = a well-formed reference / a \
          complete payload with >= 1 region / a file with >= 1 region or table; distinct by case text",
     );
     rep.notes.push(format!(
